@@ -36,6 +36,23 @@ pub fn generate(g: &mut Gen) {
         g.push(format!("rnd.generate {} {} {} 1", seed_for_state(state), hx(lo), hx(hi)), Tol::Exact, "generate/unrepresentable-width", true);
     }
     g.push(format!("rnd.generate 7 {} {} 3", hx(0.5), hx(0.5)), Tol::Exact, "generate/min=max", true);
+    // one-point intervals at values that are not powers of two, and intervals one / a few units in the last place wide:
+    // every draw still lies inside (a weighted mean of the ends, rounded twice, can leave such an interval)
+    for (si, seed) in [1u64, 7, 12345, u64::MAX, seed_for_state(M - 1)].iter().enumerate() {
+        for v in [0.1f32, 0.3, 0.7, 1.1, -2.7, 3.3e-39, 1.7e30, -0.1] {
+            g.push(format!("rnd.generate {} {} {} 24", seed, hx(v), hx(v)), Tol::Exact, "generate/one-point", true);
+            let up = f32::from_bits(if v > 0.0 { v.to_bits() + 1 } else { v.to_bits() - 1 });
+            g.push(format!("rnd.generate {} {} {} 24", seed, hx(v), hx(up)), Tol::Exact, "generate/one-ulp-wide", true);
+            if si == 0 {
+                let up3 = f32::from_bits(if v > 0.0 { v.to_bits() + 3 } else { v.to_bits() - 3 });
+                g.push(format!("rnd.generate {} {} {} 64", seed, hx(v), hx(up3)), Tol::Exact, "generate/three-ulp-wide", true);
+            }
+        }
+        // one-point intervals between other draws and before shuffles: the sequence does not depend on the intervals asked for
+        g.push(format!("rnd.mixed {} 7 g {} {} g {} {} g {} {} g {} {} g {} {} s 9 g {} {}", seed, hx(0.0), hx(1.0), hx(1.0), hx(1.0), hx(-1.0), hx(1.0),
+            hx(0.25), hx(0.25), hx(4.0), hx(4.0), hx(0.0), hx(1.0)), Tol::Exact, "mixed/one-point-intervals", true);
+        g.push(format!("rnd.mixed {} 3 g {} {} s 12 g {} {}", seed, hx(4.0), hx(4.0), hx(-2.0), hx(3.0)), Tol::Exact, "mixed/one-point-then-shuffle", true);
+    }
     // one generator asked for different intervals and shuffle lengths in sequence (same lower end / different upper
     // end, same upper / different lower, a draw after a shuffle, a long shuffle after a short one)
     for seed in [1u64, 7, 12345, M - 1, seed_for_state(M - 1)] {
